@@ -102,6 +102,8 @@ TraceSpec == TraceInit /\ [][TraceNext]_tvars
 
 \* furthest position reached per trace (register tid), updated from a state constraint
 Progress == TLCSet(tid, IF TLCGet(tid) < l THEN l ELSE TLCGet(tid))
+\* once some path has consumed the whole trace, the remaining search for this trace is cut off (depth-first queue)
+Prune == ~(TLCGet(tid) = Len(Tr) + 1 /\ l < Len(Tr) + 1)
 
 Accepted ==
   LET bad == {i \in 1..NT : TLCGet(i) # Len(Traces[i].evs) + 1}
